@@ -532,7 +532,19 @@ def hFoldbyNoInit : Handler := handler fun args =>
       (← se.toNat?) (← parts.toIntss?)).map ofIntPairs))
   | _ => none
 
-def tableC48b : List (String × Handler) := [("foldbynoci", hFoldbyNoCI), ("foldbynoinit", hFoldbyNoInit),
+/-- `(groupbydiskblocks nout nelements keymod (hashes…) parts)`: the disk shuffle block by block -/
+def hGroupbyDiskBlocks : Handler := handler fun args =>
+  match args with
+  | [nout, ne, km, hs, parts] => do
+    let km ← km.toNat?
+    let hs ← hs.toNats?
+    let ne ← ne.toNat?
+    if ne = 0 then none
+    else pure (.list ((groupbyDiskBlocks (fun key => hs.getD key 0) (fun (x : Int) => (x % (km : Int)).toNat) (← nout.toNat?) ne
+      (← parts.toIntss?)).map ofGroups))
+  | _ => none
+
+def tableC48b : List (String × Handler) := [("groupbydiskblocks", hGroupbyDiskBlocks),("foldbynoci", hFoldbyNoCI), ("foldbynoinit", hFoldbyNoInit),
   ("splitcuts", hSplitCuts), ("split", hSplit), ("repartitionieee", hRepartitionIeee), ("repartitionsize", hRepartitionSize),
   ("fromsequence", hFromSequence), ("mean", hMean), ("var", hVar)]
 
